@@ -44,6 +44,44 @@ def startup(chk):
             chk.bad(rule, cli.qual, "run() is given %s as the configuration instead of the CONFIGURATION argument" % kw.get("configuration"), node=runcalls[0], stmt="cli-configuration")
         else:
             chk.ok(rule, cli.qual, "__main__ -> cli_run -> run(configuration=options.CONFIGURATION, ...)", node=runcalls[0])
+    # the path reaches run() as the user typed it: its extension selects the loader, so a converter on the CONFIGURATION
+    # argument that follows symbolic links or edits the text (`config.yaml -> releases/config.yaml.v2`) changes which
+    # loader is used for a valid configuration
+    KEEP = {"ext:builtins.str", "ext:os.fspath", "ext:os.fsdecode", "ext:pathlib.Path", "ext:pathlib.PurePath", "ext:os.path.abspath", "ext:os.path.expanduser", "ext:os.path.expandvars", "ext:os.path.normpath"}
+    CHANGE = {"realpath", "resolve", "readlink", "lower", "upper", "casefold", "strip", "rstrip", "lstrip", "basename", "splitext", "with_suffix", "removesuffix", "stem"}
+    climod = prog.modules.get("cobald.daemon.core.cli")
+    n_conf = 0
+    for c in ast.walk(climod.tree) if climod is not None else []:
+        if isinstance(c, ast.Call) and isinstance(c.func, ast.Attribute) and c.func.attr == "add_argument" and c.args and isinstance(c.args[0], ast.Constant) and c.args[0].value == "CONFIGURATION":
+            n_conf += 1
+            for k in c.keywords:
+                if k.arg in ("nargs", "choices", "action", "const"):
+                    chk.bad(rule, "cobald.daemon.core.cli", "the CONFIGURATION argument is declared with %s=%s: run() no longer gets the one path the user gave" % (k.arg, util.unparse(k.value)), node=c, stmt="cli-argument-%s" % k.arg)
+                if k.arg != "type":
+                    continue
+                q = prog.resolve(climod, k.value) if isinstance(k.value, (ast.Name, ast.Attribute)) else None
+                if q in KEEP:
+                    continue
+                conv = prog.functions.get(q) if q else None
+                used = set()
+                if conv is not None:
+                    used = {x.attr for x in ast.walk(conv.node) if isinstance(x, ast.Attribute)} | {x.id for x in ast.walk(conv.node) if isinstance(x, ast.Name)}
+                elif isinstance(k.value, ast.Lambda):
+                    used = {x.attr for x in ast.walk(k.value) if isinstance(x, ast.Attribute)} | {x.id for x in ast.walk(k.value) if isinstance(x, ast.Name)}
+                elif q:
+                    used = {q.rsplit(".", 1)[-1]}
+                if used & CHANGE:
+                    chk.bad(
+                        rule,
+                        "cobald.daemon.core.cli",
+                        "the CONFIGURATION argument is converted by %s (%s) before its extension selects the loader: a valid configuration behind a symbolic link or with a differently spelled name is rejected as `Unknown configuration extension`, or the wrong loader is used" % (util.unparse(k.value), ", ".join(sorted(used & CHANGE))),
+                        node=c,
+                        stmt="cli-path-rewritten",
+                    )
+                else:
+                    chk.undecided(rule, "cobald.daemon.core.cli", "the CONFIGURATION argument is converted by %s" % util.unparse(k.value), node=c)
+    if climod is not None and n_conf != 1:
+        chk.undecided(rule, "cobald.daemon.core.cli", "%d declarations of the CONFIGURATION argument" % n_conf, node=climod.tree)
     run = prog.func(RUN)
     outs = Interp(prog, run).run()
     chk.count(len(outs))
@@ -156,7 +194,18 @@ def keep_alive(chk):
         if isinstance(n, ast.Await) and isinstance(n.value, ast.Call):
             r = prog.resolve(ls.module, n.value.func)
             txt = util.unparse(n.value)
-            if (r == "ext:asyncio.sleep" and ("inf" in txt)) or r in ("ext:trio.sleep_forever",) or txt.endswith("Event().wait()") or txt.endswith("Future()"):
+            forever = "inf" in txt
+            arg0 = n.value.args[0] if n.value.args else None
+            if r == "ext:asyncio.sleep" and isinstance(arg0, ast.Name) and not forever:
+                # a named duration: a module constant, or a defaulted parameter nothing in the package supplies
+                mc = prog.module_constant(prog.resolve(ls.module, arg0) or "")
+                dflt = util.unsupplied_default_nodes(prog, ls).get(arg0.id)
+                rebinds = [x for x in ast.walk(ls.node) if isinstance(x, ast.Name) and x.id == arg0.id and isinstance(x.ctx, (ast.Store, ast.Del))]
+                if dflt is not None and not rebinds and "inf" in util.unparse(dflt):
+                    forever = True
+                elif mc is not None and arg0.id not in ls.params() and not rebinds and "inf" in util.unparse(mc[1]):
+                    forever = True
+            if (r == "ext:asyncio.sleep" and forever) or r in ("ext:trio.sleep_forever",) or txt.endswith("Event().wait()") or txt.endswith("Future()"):
                 parks.append(n)
             elif r == "ext:asyncio.sleep":
                 chk.bad(rule, name, "the loader sleeps for %s instead of forever: afterwards the configuration is released and its services can be collected" % util.unparse(n.value.args[0]), node=n, stmt="finite-park")
@@ -170,7 +219,8 @@ def keep_alive(chk):
         chk.bad(rule, name, "statements follow the parking await inside the with block", node=last, stmt="after-park")
         ok = False
     idx = ls.node.body.index(w) if w in ls.node.body else None
-    if idx is None or ls.node.body[idx + 1 :]:
+    trailing = [st for st in (ls.node.body[idx + 1 :] if idx is not None else []) if not (isinstance(st, ast.Return) and (st.value is None or (isinstance(st.value, ast.Constant) and st.value.value is None))) and not isinstance(st, ast.Pass)]
+    if idx is None or trailing:
         chk.bad(rule, name, "the loading coroutine continues after the `with load(path)` block", node=ls.node, stmt="after-with")
         ok = False
     for st in w.body:
